@@ -374,8 +374,8 @@ End Prefix2.
 
 (* ---------------------------------------------------------------------- *)
 (* Inductive steps of the mutual prefix lemma: P<fn> (S f) from the P's at f.
-   Done: stmts (above), follow_stmts, block, subshell, while, elif, if, func_decl, and_or, pipe_loop, get_stmt.
-   Open: stmt_pipe (gotStmtPipe), for_clause, case_clause, case_items. *)
+   stmts (above), follow_stmts, block, subshell, while, elif, if, func_decl, and_or, pipe_loop, get_stmt here;
+   for_clause, case_items, case_clause, stmt_pipe (gotStmtPipe) and the assembly in Section P4 below. *)
 Section P3.
   Variable r : list token.
   Variable px : bool.
@@ -742,3 +742,352 @@ Section P3.
       simpl app. rewrite !E, !bind_POk. apply K.
   Qed.
 End P3.
+
+(* ---------------------------------------------------------------------- *)
+Section P4.
+  Variable r : list token.
+  Variable px : bool.
+  Notation pre_l := (pre_g end_l (lock_l r)).
+  Notation pre_lb := (pre_g end_lb (lock_lb r)).
+  Notation pre_o ts := (pre_g (end_o ts) (lock_o r)).
+  Notation pre_ob ts := (pre_g (end_ob ts) (lock_ob r)).
+  Ltac eofr := cbv [eof_ok end_l end_lb end_o end_ob fst]; try reflexivity.
+
+  Lemma bind_lerr : forall A B c p (k : A -> pres B), bind (lerr c p) k = lerr c p.
+  Proof. reflexivity. Qed.
+
+  Lemma for_S : forall f o q ts, for_clause px (S f) o q ts =
+    bind (match tl ts with
+          | TLparen :: _ => if px then lerr ELangCStyleFor (length (tl ts)) else POk tt
+          | _ => POk tt
+          end) (fun _ =>
+    bind (word_iter (S f) o (length ts) (tl ts)) (fun r1 =>
+      match r1 with
+      | TLbrace :: r2 =>
+          if px then lerr ELangForBrace (length r1)
+          else bind (follow_stmts px f o q (length r1) [TRbrace] r2) (fun r3 =>
+               match r3 with TRbrace :: r4 => POk r4 | _ => perr o r3 EStmtEnd (length ts) end)
+      | TDo :: r2 =>
+          bind (follow_stmts px f o q (length r1) [TDone] r2) (fun r3 =>
+          match r3 with TDone :: r4 => POk r4 | _ => perr o r3 EStmtEnd (length ts) end)
+      | _ => perr o r1 EFollowRsrv (length ts)
+      end)).
+  Proof. reflexivity. Qed.
+
+  Lemma step_for : forall f, Pfollow r px f -> Pfor r px (S f).
+  Proof.
+    intros f If o q t ts. rewrite !for_S. simpl tl.
+    assert (W : forall n n', pre_l
+      (bind (word_iter (S f) (S o) n (ts ++ r)) (fun r1 =>
+        match r1 with
+        | TLbrace :: r2 => if px then lerr ELangForBrace (length r1)
+            else bind (follow_stmts px f (S o) q (length r1) [TRbrace] r2) (fun r3 => match r3 with TRbrace :: r4 => POk r4 | _ => perr (S o) r3 EStmtEnd n end)
+        | TDo :: r2 => bind (follow_stmts px f (S o) q (length r1) [TDone] r2) (fun r3 => match r3 with TDone :: r4 => POk r4 | _ => perr (S o) r3 EStmtEnd n end)
+        | _ => perr (S o) r1 EFollowRsrv n end))
+      (bind (word_iter (S f) (S o) n' ts) (fun r1 =>
+        match r1 with
+        | TLbrace :: r2 => if px then lerr ELangForBrace (length r1)
+            else bind (follow_stmts px f (S o) q (length r1) [TRbrace] r2) (fun r3 => match r3 with TRbrace :: r4 => POk r4 | _ => perr (S o) r3 EStmtEnd n' end)
+        | TDo :: r2 => bind (follow_stmts px f (S o) q (length r1) [TDone] r2) (fun r3 => match r3 with TDone :: r4 => POk r4 | _ => perr (S o) r3 EStmtEnd n' end)
+        | _ => perr (S o) r1 EFollowRsrv n' end))).
+    { intros n n'. eapply pre_g_bind; [apply pre_word_iter| |].
+      - intros v v' [Hne ->]. destruct v' as [|t1 y]; [congruence|]. simpl app.
+        destruct t1; try apply pre_perr.
+        + (* TDo *) eapply pre_g_bind; [apply If| |].
+          * intros v v' [Hne2 ->]. destruct v' as [|t2 z]; [congruence|]. simpl app.
+            destruct t2; try apply pre_perr. apply pre_l_any.
+          * intros a ->. apply eof_perr.
+        + (* TLbrace *) destruct px; [apply pre_lerr|].
+          eapply pre_g_bind; [apply If| |].
+          * intros v v' [Hne2 ->]. destruct v' as [|t2 z]; [congruence|]. simpl app.
+            destruct t2; try apply pre_perr. apply pre_l_any.
+          * intros a ->. apply eof_perr.
+      - intros a ->. apply eof_perr. }
+    destruct ts as [|t1 y].
+    - (* nothing after `for`: the prefix run fails Incomplete *)
+      apply pre_g_eof. unfold bind, word_iter, perr. simpl. reflexivity.
+    - simpl app. destruct t1; try (rewrite !bind_POk; apply W).
+      destruct px; [rewrite bind_lerr; apply pre_lerr | rewrite !bind_POk; apply W].
+  Qed.
+
+  Lemma eof_items : forall f o prev, eof_ok end_l (case_items px f (S o) prev []).
+  Proof. intros. apply (proj1 (proj2 (proj2 (proj2 (proj2 (proj2 (proj2 (proj2 (proj2 (proj2 (proj2 (proj2 (proj2 (proj2 (eof_all px f))))))))))))))). Qed.
+
+  Lemma items_S : forall f o prev ts, case_items px (S f) o prev ts =
+    match ts with
+    | [] => POk ts
+    | TEsac :: _ => POk ts
+    | _ =>
+        bind (pats_loop (S f) o (match ts with TLparen :: _ => length ts | _ => prev end)
+                        (match ts with TLparen :: r0 => r0 | _ => ts end)) (fun r0 =>
+        bind (stmts px f o QCase [TEsac] true false (tl r0)) (fun v =>
+          match fst v with
+          | TDSemi :: r3 => case_items px f o (length (fst v)) (got_newl r3)
+          | _ => POk (fst v)
+          end))
+    end.
+  Proof. intros. destruct ts as [|[] ?]; reflexivity. Qed.
+
+  Lemma step_items : forall f, Pstmts r px f -> Pitems r px f -> Pitems r px (S f).
+  Proof.
+    intros f Is Ii o prev prev' ts.
+    destruct ts as [|t x]; [apply pre_g_eof; apply eof_items|].
+    rewrite !items_S.
+    (* continuation after the patterns *)
+    assert (K : forall n n' z, pre_l
+      (bind (pats_loop (S f) (S o) n (z ++ r)) (fun r0 =>
+        bind (stmts px f (S o) QCase [TEsac] true false (tl r0)) (fun v =>
+          match fst v with TDSemi :: r3 => case_items px f (S o) (length (fst v)) (got_newl r3) | _ => POk (fst v) end)))
+      (bind (pats_loop (S f) (S o) n' z) (fun r0 =>
+        bind (stmts px f (S o) QCase [TEsac] true false (tl r0)) (fun v =>
+          match fst v with TDSemi :: r3 => case_items px f (S o) (length (fst v)) (got_newl r3) | _ => POk (fst v) end)))).
+    { intros n n' z.
+      assert (K2 : forall w, pre_l
+        (bind (stmts px f (S o) QCase [TEsac] true false (w ++ r)) (fun v =>
+          match fst v with TDSemi :: r3 => case_items px f (S o) (length (fst v)) (got_newl r3) | _ => POk (fst v) end))
+        (bind (stmts px f (S o) QCase [TEsac] true false w) (fun v =>
+          match fst v with TDSemi :: r3 => case_items px f (S o) (length (fst v)) (got_newl r3) | _ => POk (fst v) end))).
+      { intro w. eapply pre_g_bind; [apply Is| |].
+        - intros [a b] [a' b'] (Hne & E1 & E2). simpl in *. subst.
+          destruct a' as [|t2 u]; [congruence|]. simpl app.
+          destruct t2; try apply (pre_l_lock r _ u).
+          destruct (got_newl_cases r u) as [[E _]|(t3 & u' & E1 & E2)].
+          + rewrite E. apply pre_g_eof. apply eof_items.
+          + rewrite E1, E2. apply Ii.
+        - intros [a b] E. unfold end_lb in E. simpl in E. subst. simpl. eofr. }
+      eapply pre_g_bind; [apply pre_pats_loop| |].
+      - intros v v' [Hne ->]. destruct v' as [|t1 y]; [congruence|]. simpl tl. apply K2.
+      - intros a ->. simpl tl. eapply eof_bind; [apply (proj1 (eof_all px f))|].
+        intros [a b] E. unfold end_lb in E. simpl in E. subst. simpl. eofr. }
+    destruct t; try apply (K prev prev' (_ :: x)).
+    - (* TEsac *) apply (pre_l_lock r TEsac x).
+    - (* TLparen *) simpl app. apply K.
+  Qed.
+
+  Lemma case_S : forall f o q ts, case_clause px (S f) o q ts =
+    match get_word (tl ts) with
+    | None => perr o (tl ts) ECaseWord (length ts)
+    | Some r0 =>
+        match got_newl r0 with
+        | TLbrace :: _ => lerr ELangCaseBrace (length ts)
+        | TIn :: r2 =>
+            bind (case_items px f o (length (got_newl r0)) (got_newl r2)) (fun r3 =>
+            match r3 with TEsac :: r4 => POk r4 | _ => perr o r3 EStmtEnd (length ts) end)
+        | _ => perr o (got_newl r0) EFollowRsrv (length ts)
+        end
+    end.
+  Proof. reflexivity. Qed.
+
+  Lemma step_case : forall f, Pitems r px f -> Pcase r px (S f).
+  Proof.
+    intros f Ii o q t ts. rewrite !case_S. simpl tl.
+    destruct ts as [|t1 y]; [apply pre_g_eof; unfold perr; simpl; reflexivity|].
+    rewrite get_word_app. destruct (get_word (t1 :: y)) as [z|]; [|apply pre_perr].
+    destruct (got_newl_cases r z) as [[E _]|(t2 & w & E1 & E2)].
+    - rewrite E. apply pre_g_eof. apply eof_perr.
+    - rewrite E1, E2. simpl app. destruct t2; try apply pre_perr; [|apply pre_lerr].
+      (* TIn *)
+      destruct (got_newl_cases r w) as [[E _]|(t3 & w' & E3 & E4)].
+      + rewrite E. apply pre_g_eof. eapply eof_bind; [apply eof_items|]. intros a ->. apply eof_perr.
+      + rewrite E3, E4. eapply pre_g_bind; [apply Ii| |].
+        * intros v v' [Hne ->]. destruct v' as [|t4 u]; [congruence|]. simpl app.
+          destruct t4; try apply pre_perr. apply pre_l_any.
+        * intros a ->. apply eof_perr.
+  Qed.
+
+  (* ---------- gotStmtPipe ---------- *)
+  Definition sp_tail f o q bc (had : bool) (spos : nat) (ts1 : list token) (c : option (list token * bool)) : pres (option (list token)) :=
+    match c with
+    | None => if had then pipe_loop px f o q bc ts1 else POk None
+    | Some (r0, compound) =>
+        if had && compound then lerr ELangRedirCompound spos
+        else bind (redirs (S f) o r0) (fun r' => pipe_loop px f o q bc r')
+    end.
+
+  Definition mk (c : bool) (x : list token) : pres (option (list token * bool)) := POk (Some (x, c)).
+
+  Definition sp_asname f o q (t : token) (n : nat) (r0 : list token) : pres (option (list token * bool)) :=
+    match r0 with
+    | TLparen :: r2 =>
+        match r2 with
+        | TRparen :: r3 =>
+            if px && negb (valid_func_name t) then perr o r3 EInvalidFunc n
+            else bind (func_decl px f o q n r3) (mk true)
+        | _ => perr o r2 EFooParen n
+        end
+    | _ => bind (call_loop px (S f) o q (Some t) r0) (mk false)
+    end.
+
+  Definition sp_cmd f o q (ng : bool) (ts1 : list token) : pres (option (list token * bool)) :=
+    match ts1 with
+    | t :: r0 =>
+        match t with
+        | TLbrace => bind (block px f o q ts1) (mk true)
+        | TIf => bind (if_clause px f o q ts1) (mk true)
+        | TWhile | TUntil => bind (while_clause px f o q ts1) (mk true)
+        | TFor => bind (for_clause px f o q ts1) (mk true)
+        | TCase => bind (case_clause px f o q ts1) (mk true)
+        | TRbrace => perr o ts1 ERbraceClose (length ts1)
+        | TThen | TElif | TElse => perr o ts1 EThenIf (length ts1)
+        | TFi => perr o ts1 EFi (length ts1)
+        | TDo => perr o ts1 EDo (length ts1)
+        | TDone => perr o ts1 EDone (length ts1)
+        | TEsac => perr o ts1 EEsac (length ts1)
+        | TBang => if ng then sp_asname f o q t (length ts1) r0 else perr o ts1 EBangFull (length ts1)
+        | TAssign => bind (call_loop px (S f) o q None r0) (mk false)
+        | TLit | TName | TIn => sp_asname f o q t (length ts1) r0
+        | TWord =>
+            match r0 with
+            | TLparen :: r2 => perr o r2 EInvalidFunc (length ts1)
+            | _ => bind (call_loop px (S f) o q (Some TWord) r0) (mk false)
+            end
+        | TLparen => bind (subshell px f o ts1) (mk true)
+        | _ => POk None
+        end
+    | [] => POk None
+    end.
+
+  Lemma stmt_pipe_S : forall f o q ng bc spos ts, stmt_pipe px (S f) o q ng bc spos ts =
+    bind (redirs (S f) o ts) (fun ts1 =>
+    bind (sp_cmd f o q ng ts1) (sp_tail f o q bc (Nat.ltb (length ts1) (length ts)) spos ts1)).
+  Proof. reflexivity. Qed.
+
+  Lemma ltb_app : forall (a b0 : list token), Nat.ltb (length (a ++ r)) (length (b0 ++ r)) = Nat.ltb (length a) (length b0).
+  Proof.
+    intros. rewrite !app_length. destruct (Nat.ltb_spec (length a) (length b0)); [apply Nat.ltb_lt|apply Nat.ltb_ge]; lia.
+  Qed.
+
+  Lemma step_pipe : forall f,
+    Pploop r px f -> Pblock r px f -> Psub r px f -> Pif r px f -> Pwhile r px f -> Pfor r px f -> Pcase r px f -> Pfunc r px f ->
+    Ppipe r px (S f).
+  Proof.
+    intros f Il Iblock Isub Iif Iwhile Ifor Icase Ifunc o q ng bc sp sp' ts.
+    destruct ts as [|t x]; [apply pre_g_eof; apply (eof_pipe px (S f))|].
+    rewrite !stmt_pipe_S.
+    set (TS := t :: x).
+    eapply pre_g_bind; [apply pre_redirs| |].
+    2:{ (* the prefix ends inside the leading redirections *)
+        intros a ->. simpl. rewrite bind_POk. simpl. apply eof_ploop. }
+    intros v v' [Hne ->]. destruct v' as [|t1 y]; [congruence|]. clear Hne.
+    rewrite ltb_app. set (b := Nat.ltb (length (t1 :: y)) (length TS)).
+    (* the tail after the command, in lockstep *)
+    assert (TL : forall c c', lock_ob r c c' ->
+      pre_o TS (sp_tail f (S o) q bc b sp ((t1 :: y) ++ r) c) (sp_tail f (S o) q bc b sp' (t1 :: y) c')).
+    { intros [[a k]|] [[a' k']|] L; simpl in L; try contradiction.
+      - destruct L as (Hne & E1 & E2). simpl in *. subst. unfold sp_tail.
+        destruct (b && k'); [apply pre_lerr|].
+        eapply pre_g_bind; [apply pre_redirs| |].
+        + intros v v' [Hne2 ->]. eapply pre_o_some; [apply pipe_loop_some | apply Il].
+        + intros z ->. apply eof_ploop.
+      - unfold sp_tail. destruct b.
+        + eapply pre_o_some; [apply pipe_loop_some | apply Il].
+        + left. exists None. split; [reflexivity|exact I]. }
+    (* the tail when the command used up the prefix *)
+    assert (TE : forall k, b && k = false -> eof_ok (end_o TS) (sp_tail f (S o) q bc b sp' (t1 :: y) (Some ([], k)))).
+    { intros k E. unfold sp_tail. rewrite E. eapply eof_bind; [apply redirs_nil|]. intros z ->. apply eof_ploop. }
+    (* a command whose value carries the flag k, built from a list-valued parser X *)
+    assert (CK : forall k (Xf Xp : pres (list token)), pre_l Xf Xp ->
+      pre_o TS (bind (bind Xf (mk k)) (sp_tail f (S o) q bc b sp ((t1 :: y) ++ r)))
+               (bind (bind Xp (mk k)) (sp_tail f (S o) q bc b sp' (t1 :: y)))).
+    { intros k Xf Xp H. destruct (b && k) eqn:BK.
+      - (* leading redirections and a compound command: the full run is a LangError *)
+        destruct Xf as [a| |]; try exact I. unfold mk. rewrite !bind_POk. unfold sp_tail at 1. rewrite BK. apply pre_lerr.
+      - eapply pre_g_bind with (ea := fun c => c = Some ([], k)) (la := lock_ob r).
+        + eapply pre_g_bind; [exact H| |].
+          * intros v v' [Hne ->]. left. eexists. split; [reflexivity|]. simpl. repeat split. exact Hne.
+          * intros a ->. reflexivity.
+        + exact TL.
+        + intros c ->. apply TE. exact BK. }
+    (* simple command: call_loop with flag false *)
+    assert (CALL : forall first z, pre_o TS
+      (bind (bind (call_loop px (S f) (S o) q first (z ++ r)) (mk false)) (sp_tail f (S o) q bc b sp ((t1 :: y) ++ r)))
+      (bind (bind (call_loop px (S f) (S o) q first z) (mk false)) (sp_tail f (S o) q bc b sp' (t1 :: y)))).
+    { intros first z. apply CK. apply pre_call_loop. }
+    (* name followed by ( ) : function declaration, otherwise a call *)
+    assert (ASN : forall tn n n', pre_o TS
+      (bind (sp_asname f (S o) q tn n (y ++ r)) (sp_tail f (S o) q bc b sp ((t1 :: y) ++ r)))
+      (bind (sp_asname f (S o) q tn n' y) (sp_tail f (S o) q bc b sp' (t1 :: y)))).
+    { intros tn n n'. unfold sp_asname.
+      destruct y as [|t2 z].
+      - (* the prefix ends right after the name *)
+        apply pre_g_eof. simpl. eapply eof_bind with (ea := fun c => c = Some ([], false)).
+        + eapply eof_bind; [apply call_loop_nil|]. intros a ->. reflexivity.
+        + intros c ->. apply TE. apply Bool.andb_false_r.
+      - simpl app. destruct t2; try apply (CALL (Some tn) (_ :: z)).
+        (* TLparen *)
+        destruct z as [|t3 w].
+        + apply pre_g_eof. unfold bind, perr. simpl. reflexivity.
+        + simpl app. destruct t3; try (rewrite bind_perr; apply pre_perr).
+          destruct (px && negb (valid_func_name tn)); [rewrite bind_perr; apply pre_perr|].
+          apply CK. apply Ifunc. }
+    unfold sp_cmd. simpl app.
+    destruct t1.
+    all: try (rewrite !bind_perr; apply pre_perr).
+    all: try (rewrite !bind_POk; apply TL; exact I).
+    - (* TWord *) destruct y as [|t2 z].
+      + apply pre_g_eof. simpl. eapply eof_bind with (ea := fun c => c = Some ([], false)).
+        * eapply eof_bind; [apply call_loop_nil|]. intros a ->. reflexivity.
+        * intros c ->. apply TE. apply Bool.andb_false_r.
+      + simpl app. destruct t2; try apply (CALL (Some TWord) (_ :: z)). rewrite bind_perr. apply pre_perr.
+    - (* TLit *) apply ASN.
+    - (* TName *) apply ASN.
+    - (* TAssign *) apply CALL.
+    - (* TIf *) apply CK. apply (Iif o q TIf y).
+    - (* TWhile *) apply CK. apply (Iwhile o q TWhile y).
+    - (* TUntil *) apply CK. apply (Iwhile o q TUntil y).
+    - (* TFor *) apply CK. apply (Ifor o q TFor y).
+    - (* TIn *) apply ASN.
+    - (* TCase *) apply CK. apply (Icase o q TCase y).
+    - (* TLbrace *) apply CK. apply (Iblock o q TLbrace y).
+    - (* TBang *) destruct ng; [apply ASN | rewrite !bind_perr; apply pre_perr].
+    - (* TLparen *) apply CK. apply (Isub o TLparen y).
+  Qed.
+
+  (* ---------- assembly ---------- *)
+  Definition Pall f : Prop :=
+    Pstmts r px f /\ Pget r px f /\ Pandor r px f /\ Ppipe r px f /\ Pploop r px f /\ Pfollow r px f /\
+    Pblock r px f /\ Psub r px f /\ Pif r px f /\ Pelif r px f /\ Pwhile r px f /\ Pfor r px f /\
+    Pcase r px f /\ Pitems r px f /\ Pfunc r px f.
+
+  Lemma pre_all : forall f, Pall f.
+  Proof.
+    induction f as [|f IH].
+    - unfold Pall, Pstmts, Pget, Pandor, Ppipe, Pploop, Pfollow, Pblock, Psub, Pif, Pelif, Pwhile, Pfor, Pcase, Pitems, Pfunc.
+      repeat apply conj; intros; exact I.
+    - destruct IH as (Is & Ig & Ia & Ip & Il & Ifo & Ib & Isu & Ii & Ie & Iw & Ifr & Ic & Iit & Ifu).
+      unfold Pall. repeat apply conj.
+      + unfold Pstmts. apply pre_stmts_step; assumption.
+      + apply step_get; assumption.
+      + apply step_andor; assumption.
+      + apply step_pipe; assumption.
+      + apply step_ploop; assumption.
+      + apply step_follow; assumption.
+      + apply step_block; assumption.
+      + apply step_sub; assumption.
+      + apply step_if; assumption.
+      + apply step_elif; assumption.
+      + apply step_while; assumption.
+      + apply step_for; assumption.
+      + apply step_case; assumption.
+      + apply step_items; assumption.
+      + apply step_func; assumption.
+  Qed.
+End P4.
+
+(* The prefix theorem on the model: if the parser accepts q ++ r with some fuel, then with the same fuel it
+   accepts q, or fails on q with an error marked Incomplete, or runs out of fuel. *)
+Theorem prefix_ok_or_incomplete : forall px fuel q r,
+  accepted (stmts px fuel 0 QNone [] true false (q ++ r)) = true ->
+  let res := stmts px fuel 0 QNone [] true false q in
+  accepted res = true \/ incomplete res = true \/ out_of_fuel res = true.
+Proof.
+  intros px fuel q r A res. subst res.
+  pose proof (proj1 (pre_all r px fuel) 0 QNone [] true false q) as H.
+  destruct (stmts px fuel 0 QNone [] true false (q ++ r)) as [v| |]; try discriminate.
+  unfold pre_g in H. destruct H as [(v' & -> & _)|H].
+  - left. reflexivity.
+  - destruct (stmts px fuel 0 QNone [] true false q) as [v'|c p i|]; simpl in *.
+    + left. reflexivity.
+    + right. left. exact H.
+    + right. right. reflexivity.
+Qed.
